@@ -14,10 +14,6 @@ use std::collections::BTreeMap;
 /// same concatenation ("abc|defg" = "abcd|efg" = "ab|cdefg" = "abcde|fg")
 pub const DENOM_POOL: [&str; 14] = ["abc", "defg", "abcd", "efg", "ab", "cdefg", "abcde", "fg", "ua", "uab", "uabc", "b", "ab1", "zzz"];
 
-/// the address the first cw20 token of a world receives (factory, router, proxy are contract0..2);
-/// asserted in `FactoryWorld::build`
-pub const FIRST_TOKEN_ADDR: &str = "contract3";
-
 pub const FACTORY_HEAD: usize = 40;
 pub const FACTORY_OP: usize = 12;
 
@@ -89,9 +85,6 @@ pub struct FactoryWorld {
 impl FactoryWorld {
     pub fn build(cfg: &WorldCfg) -> FactoryWorld {
         let w = World::build(cfg).unwrap_or_else(|e| panic!("factory world build failed (harness): {e}"));
-        if let Some(t) = w.tokens.first() {
-            assert_eq!(t.addr.as_str(), FIRST_TOKEN_ADDR, "harness: first token address changed");
-        }
         let mut model = Registry::default();
         for (i, d) in w.natives.iter().enumerate() {
             if !cfg.unregistered.contains(&i) {
